@@ -88,6 +88,7 @@ type fnVC struct {
 	curClause *Clause
 	ghostDone bool
 	entrySeq  map[*ssa.BasicBlock]int
+	addrSpace string
 }
 
 func (v *fnVC) fresh(prefix string) string {
@@ -210,22 +211,31 @@ type allocRec struct {
 	blk *ssa.BasicBlock
 }
 
-// frameCheck: a written address must be fresh or covered by the function's modifies clause.
-func (v *fnVC) frameCheck(addr T, text string, pos token.Pos) {
+// frameAlts lists the ways a written address may be legitimate: it belongs to an object that was not
+// allocated at entry, or it is covered by an item of the function's modifies clause. ok=false: the
+// function claims no frame (or modifies *).
+func (v *fnVC) frameAlts(addr T) ([]T, bool) { return v.frameAltsK(addr, false) }
+
+// frameAltsK: mapRef says that addr is a map reference (an index of the map memories), which is never
+// an element of a backing array.
+func (v *fnVC) frameAltsK(addr T, mapRef bool) ([]T, bool) {
 	if v.con == nil || (len(v.con.Modifies) == 0 && !v.con.Pure) {
-		return // no frame claimed
+		return nil, false // no frame claimed
 	}
 	v.memSrt[allocMem] = "Bool"
 	freshRoot := not(sel(v.mem0(allocMem), app("root", addr)))
 	freshBacking := and(eq(app("akind", addr), "(- 1)"), not(sel(v.mem0(allocMem), app("ebase", addr))))
 	alts := []T{freshRoot, freshBacking}
+	if mapRef {
+		alts = []T{freshRoot}
+	}
 	env := v.entryEnv()
 	env.useEntryOld, env.inOld, env.old = true, true, map[string]T{}
 	for _, m := range v.con.Modifies {
 		switch {
 		case m == "nothing":
 		case m == "*":
-			return
+			return nil, false
 		case strings.HasPrefix(m, "map("):
 			ex, _ := parseExpr(m[4 : len(m)-1])
 			t, _ := v.tr(ex, env)
@@ -247,7 +257,41 @@ func (v *fnVC) frameCheck(addr T, text string, pos token.Pos) {
 			}
 		}
 	}
+	return alts, true
+}
+
+// frameCheck: a written address must be fresh or covered by the function's modifies clause.
+func (v *fnVC) frameCheck(addr T, text string, pos token.Pos) {
+	alts, ok := v.frameAlts(addr)
+	if !ok {
+		return
+	}
 	v.oblige("frame.store", text, or(alts...), pos)
+}
+
+// loopFrame: the frame obligations at every write site guarantee that a location which was allocated
+// at entry and is outside the modifies clause still holds its entry value; this is assumed for the
+// memories havoc'd at a loop head (otherwise every loop would have to restate it as an invariant).
+func (v *fnVC) loopFrame(mems []string) {
+	altsA, ok := v.frameAlts("fa")
+	if !ok {
+		return
+	}
+	altsM, _ := v.frameAltsK("fa", true)
+	for _, k := range mems {
+		alts := altsA
+		if strings.HasPrefix(k, "MD_") || strings.HasPrefix(k, "MV_") {
+			alts = altsM
+		}
+		if strings.HasPrefix(k, "L_") || k == allocMem || k == deferMem || k == visMem {
+			continue
+		}
+		nm, ok := v.cur[k]
+		if !ok {
+			continue
+		}
+		v.assume(fmt.Sprintf("(forall ((fa Int)) (! (=> (not %s) (= (select %s fa) (select %s fa))) :pattern ((select %s fa))))", or(alts...), nm, v.mem0(k), nm))
+	}
 }
 
 // frameCheckTree: a callee that may modify the whole tree of t is allowed only if the caller's
@@ -325,7 +369,7 @@ func (v *fnVC) distinctFromAllocs(a T) {
 func (v *fnVC) allocGrow() {
 	cur := v.allocCur()
 	nm := v.newConst(allocMem, "(Array Int Bool)")
-	v.assume(fmt.Sprintf("(forall ((x Int)) (! (=> (select %s x) (select %s x)) :pattern ((select %s x))))", cur, nm, cur))
+	v.assume(fmt.Sprintf("(forall ((x Int)) (! (=> (select %s x) (select %s x)) :pattern ((select %s x)) :pattern ((select %s x))))", cur, nm, cur, nm))
 	v.cur[allocMem] = nm
 }
 
@@ -509,12 +553,33 @@ func (v *fnVC) loadAt(addr T, t types.Type, snap map[string]T) T {
 			} else {
 				al = v.allocCur()
 			}
+			if mt == v.mem0(m) {
+				al = v.mem0(allocMem) // read from the entry memory: allocated at entry
+			}
 			if gk := fmt.Sprint(v.blk.Index, "wf", res, al); !v.grounded[gk] {
 				v.grounded[gk] = true
-				if ifaceTag != "" {
-					v.assume(implies(app("isptrtag", ifaceTag), or(eq(ref, "0"), sel(al, ref))))
-				} else {
-					v.assume(or(eq(ref, "0"), sel(al, ref)))
+				wf := func(res, ref, tag, al T) {
+					if tag != "" {
+						v.assume(implies(app("isptrtag", tag), or(eq(ref, "0"), and(sel(al, ref), sel(al, app("root", ref))))))
+					} else {
+						v.assume(or(eq(ref, "0"), and(sel(al, ref), sel(al, app("root", ref)))))
+					}
+				}
+				wf(res, ref, ifaceTag, al)
+				if m0 := v.mem0(m); mt != m0 && !strings.HasPrefix(m, "L_") {
+					// the same location in the entry memory: whatever it held was allocated at entry (lets
+					// the solver carry "allocated at entry" across store chains that did not touch it)
+					r0 := sel(m0, addr)
+					ref0, tag0 := T(""), T("")
+					switch t.Underlying().(type) {
+					case *types.Slice:
+						ref0 = app("sbase", r0)
+					case *types.Pointer, *types.Map, *types.Chan:
+						ref0 = r0
+					case *types.Interface:
+						ref0, tag0 = app("ipay", r0), app("itag", r0)
+					}
+					wf(r0, ref0, tag0, v.mem0(allocMem))
 				}
 			}
 		}
@@ -580,15 +645,24 @@ func (v *fnVC) rangeFact(t T, ty types.Type) T {
 	}
 	switch ty.Underlying().(type) {
 	case *types.Pointer, *types.Map, *types.Chan:
-		return or(eq(t, "0"), v.allocd(t))
+		return or(eq(t, "0"), and(v.allocd(t), v.allocd(app("root", t))))
 	case *types.Interface:
-		return implies(app("isptrtag", app("itag", t)), or(eq(app("ipay", t), "0"), v.allocd(app("ipay", t))))
+		return implies(app("isptrtag", app("itag", t)), or(eq(app("ipay", t), "0"), and(v.allocd(app("ipay", t)), v.allocd(app("root", app("ipay", t))))))
 	}
 	if isString(ty) {
 		return and(app(">=", app("slen", t), "0"), app("<=", app("slen", t), "9223372036854775807"))
 	}
+	if n, st, ok := v.isModStruct(ty); ok {
+		// a struct value carries the type invariants of its fields
+		v.P.structSort(n, st)
+		var fs []T
+		for i := 0; i < st.NumFields(); i++ {
+			fs = append(fs, v.rangeFact(app(structName(n)+"_"+st.Field(i).Name(), t), st.Field(i).Type()))
+		}
+		return and(fs...)
+	}
 	if _, ok := ty.Underlying().(*types.Slice); ok {
-		return and(app("<=", "0", app("slen_", t)), app("<=", app("slen_", t), app("-", app("scap", t), "0")), app("<=", "0", app("soff", t)), app("<=", "0", app("scap", t)), app("<=", app("+", app("soff", t), app("scap", t)), "9223372036854775807"), or(eq(app("sbase", t), "0"), v.allocd(app("sbase", t))), implies(eq(app("sbase", t), "0"), and(eq(app("scap", t), "0"), eq(app("soff", t), "0"))))
+		return and(app("<=", "0", app("slen_", t)), app("<=", app("slen_", t), app("-", app("scap", t), "0")), app("<=", "0", app("soff", t)), app("<=", "0", app("scap", t)), app("<=", app("+", app("soff", t), app("scap", t)), "9223372036854775807"), or(eq(app("sbase", t), "0"), and(v.allocd(app("sbase", t)), v.allocd(app("root", app("sbase", t))))), implies(eq(app("sbase", t), "0"), and(eq(app("scap", t), "0"), eq(app("soff", t), "0"))))
 	}
 	return "true"
 }
@@ -956,6 +1030,56 @@ func (v *fnVC) run() {
 				v.backEdge(b, s)
 			}
 		}
+	}
+	v.addAxioms()
+}
+
+// addAxioms adds the (heap-independent) axioms of the contract files that speak about ghost functions
+// this function's obligations mention. They are listed as assumptions in the evidence.
+func (v *fnVC) addAxioms() {
+	for i, ax := range v.e.spec.Axioms {
+		ids := map[string]bool{}
+		collectCalls(ax.C.E, ids)
+		relevant := false
+		for id := range ids {
+			if v.P.seen["gh_"+id] {
+				relevant = true
+			}
+		}
+		if !relevant {
+			continue
+		}
+		env := &Env{vars: map[string]bind{}, pkg: v.e.typesPkg(ax.Pkg)}
+		save, saveBlk, saveCur := v.facts, v.blk, v.cur
+		v.cur = map[string]T{} // axioms are heap-independent: only entry memories may be mentioned
+		t, _ := v.tr(ax.C.E, env)
+		v.facts, v.blk, v.cur = save, saveBlk, saveCur
+		v.P.add(fmt.Sprintf("axiom:%d", i), "(assert "+t+")")
+		v.notes = append(v.notes, "axiom: "+ax.C.Text)
+	}
+}
+
+func collectCalls(e Expr, out map[string]bool) {
+	switch x := e.(type) {
+	case *Unary:
+		collectCalls(x.X, out)
+	case *Binary:
+		collectCalls(x.X, out)
+		collectCalls(x.Y, out)
+	case *CallE:
+		out[x.Fun] = true
+		for _, a := range x.Args {
+			collectCalls(a, out)
+		}
+	case *Select:
+		collectCalls(x.X, out)
+	case *IndexE:
+		collectCalls(x.X, out)
+		collectCalls(x.I, out)
+	case *Quant:
+		collectCalls(x.Body, out)
+	case *TypeAssertE:
+		collectCalls(x.X, out)
 	}
 }
 
